@@ -40,7 +40,30 @@
      The translator accepts `a[lo:hi]` as a value only inside the right-hand side of such a store (evaluated before it);
    * a call of a helper listed as "opaque" is the application of a function PARAMETER of the generated definition:
      the helper is assumed to be a pure function of its arguments that returns a fresh array (the link theorems
-     quantify over every such function satisfying their stated hypotheses). *)
+     quantify over every such function satisfying their stated hypotheses);
+   * ROW VIEWS: a name bound by `v = A[i]`, A a 2-d ARGUMENT array that the function stores into (directly, through such
+     a name, or by handing a row to a mutating callee), denotes row i of A ITSELF (numpy basic indexing returns a view, not
+     a copy).  The generated variable `v` is the row INDEX (a Z, evaluated where the binding is executed); a read `v[d]` is
+     [mnth A v d] of the array value A has AT THAT POINT, a store `v[d] op= e` is [mset A v d ..] on the array in the
+     state, `v` handed to a pure callee is [mrow A v] at the time of the call; rebinding `v = A[k]` just changes the index.
+     Such a name may only ever be bound to rows of that one array.  (A name bound to a row of an array the function never
+     stores into remains the value [mrow A i]: there a copy and a view cannot be told apart.)
+   * MUTATING CALLEES: `x = .. f(A[i]) ..` (or `f(v)`, v a row view; or `f(a)`, a an argument array) where the translated f
+     stores into its argument: the generated [src_f] returns (value, final contents of its array); the call is evaluated
+     FIRST, the returned row replaces row i of A ([zset A i row]), then the rest of the statement is evaluated.  Accepted
+     only as the value of `name = <expression>` with exactly one such call, outside conditional expressions, when nothing
+     else in the statement mentions A (so evaluation order is unobservable).
+   * ALIASING: the generated definitions take array VALUES, so a generated definition describes the calls in which its
+     (mutated) array arguments do not overlap in memory.  Calls in which two arguments are THE SAME array are described by
+     a separate translation of the same source function (option `alias = {b: a}`): every occurrence of the name b is
+     replaced by a before translation, the parameter b disappears, and every store through either name is seen by reads
+     through the other.  Partially overlapping arrays are outside both.
+   * `numba.prange(n)` is `range(n)`: the SEQUENTIAL meaning of the loop (what a kernel compiled with parallel=False, or
+     run by the interpreter, executes).  The same source compiled with parallel=True races on shared rows: not described.
+   * a variable that is an int on one path of an `if` and a float on the other (`g = clip(..)` / `g = 0`) is a float after the
+     join: the int branch is converted with [of_Z] (Python converts the int where it first meets a float: same value);
+   * `a % b` on ints is [Z.modulo] (sign of the divisor, as in Python, for b <> 0; b = 0 raises in Python: outside);
+     `int(x)` of a float is the truncation [ntrunc]. *)
 From Coq Require Import List ZArith Bool.
 From UV Require Import Num.
 Import ListNotations.
